@@ -3,7 +3,7 @@
    (Gen/PrefixTables.v, Gen/PrefixPrelude.v) are regenerated from the running
    implementation on every run. *)
 From Coq Require Import QArith.
-From NV Require Import Prefix.Model Prefix.Proofs Prefix.Exec Gen.PrefixTables Gen.PrefixPrelude.
+From NV Require Import Prefix.Model Prefix.Proofs Prefix.Exec Prefix.Standard Gen.PrefixTables Gen.PrefixPrelude.
 
 (* ---------------- general theorems: any well-formed prefix table, any state
    reached by successful registrations, EVERY string ---------------- *)
@@ -75,6 +75,12 @@ Print Assumptions C13_readback_plain.
 Theorem C13_table_wf : table_wf gen_table = true.
 Proof. vm_compute. reflexivity. Qed.
 Print Assumptions C13_table_wf.
+
+(* every accepted prefix name / symbol denotes the power of ten (SI) or of two
+   (IEC 80000-13) that the standards give it *)
+Theorem C13_table_standard : table_standard gen_table = true.
+Proof. vm_compute. reflexivity. Qed.
+Print Assumptions C13_table_standard.
 
 Theorem C13_render_wf :
   render_wf gen_table (fun p => lookup_render p gen_render_short_tbl)
